@@ -217,8 +217,10 @@ func (g *G) genC07(p *Plan) {
 							}
 						case r < 8:
 							op = Op{K: "mpu-abort", Up: g.rng.Intn(nup)}
-						default:
+						case r < 9:
 							op = Op{K: "mpu-lsparts", Up: g.rng.Intn(nup)}
+						default:
+							op = Op{K: "mpu-lsuploads", B: b}
 						}
 					}
 				} else {
